@@ -387,6 +387,36 @@ def connected_subset(geo, rng, k):
     return None
 
 
+def well_shaped(cols):
+    """Connected through shared edges, and the columns around every node form one fan (no pinch)."""
+    cols = list(cols)
+    if not cols:
+        return False
+    sub = set(cols)
+    seen, todo = {cols[0]}, [cols[0]]
+    while todo:
+        c = todo.pop()
+        for n in c.neighbour:
+            if n in sub and n not in seen:
+                seen.add(n)
+                todo.append(n)
+    if len(seen) != len(sub):
+        return False
+    for node in set(n for c in sub for n in c.node):
+        cs = [c for c in node.column if c in sub]
+        if len(cs) > 1:
+            comp, todo = {cs[0]}, [cs[0]]
+            while todo:
+                c = todo.pop()
+                for d in cs:
+                    if d not in comp and d in c.neighbour and len(set(c.node) & set(d.node)) > 1 and node in d.node:
+                        comp.add(d)
+                        todo.append(d)
+            if len(comp) != len(cs):
+                return False
+    return True
+
+
 def op_alphabet(geo, rng, rich):
     """In-domain operations on the current geometry (arguments the docstrings allow)."""
     names = [c.name for c in geo.columnlist]
@@ -424,13 +454,18 @@ def op_alphabet(geo, rng, rich):
             pair.reverse()
         ops.append({"op": "rename_columns", "args": [pair, free[:2]]})
     if len(names) > 1:
-        ops.append({"op": "delete_column", "args": [rng.choice(names)]})
+        # deleting a column must leave a connected, pinch-free geometry (the domain of the edit operations)
+        cand = [c.name for c in geo.columnlist if well_shaped([x for x in geo.columnlist if x is not c])]
+        if cand:
+            ops.append({"op": "delete_column", "args": [rng.choice(cand)]})
         keep = connected_subset(geo, rng, max(1, len(names) // 2))
         if keep:
             ops.append({"op": "reduce", "args": [keep]})
     if names:
         lay = rng.choice(geo.layerlist)
-        ops.append({"op": "set_surface", "args": [rng.choice(names), int(round(lay.bottom / H)) + rng.choice([0, 1, -1])]})
+        # (a surface stays above the bottom of the model: a column has at least part of the bottom layer)
+        zmin = int(round(geo.layerlist[-1].bottom / H)) + 1
+        ops.append({"op": "set_surface", "args": [rng.choice(names), max(zmin, int(round(lay.bottom / H)) + rng.choice([0, 1, -1]))]})
     ls = [l.name for l in geo.layerlist[1:]]
     if ls and len(geo.layerlist) < 12:
         ops.append({"op": "refine_layers", "args": [[rng.choice(ls)], rng.choice([2, 3, 4])]})
